@@ -368,13 +368,47 @@ const GNAMES: [&str; 10] = [
 
 pub fn gen_case(seed: u64, idx: u64) -> Case10 {
     let mut r = Rng::new(seed.wrapping_mul(0x2545_F491_4F6C_DD1D) ^ idx.wrapping_mul(0x9E37_79B9_7F4A_7C15) ^ 0xC10);
-    let ver: u8 = if r.chance(2, 3) { 1 } else { 2 };
-    // groups whose names collide after prefixing
+    let ver: u8 = match r.below(8) {
+        0 | 1 => 3,
+        2..=5 => 1,
+        _ => 2,
+    };
+    // groups whose names collide after prefixing, and plain (non-kerning) groups; member lists
+    // in non-sorted order, with a name listed two or three times, empty, or long: the ORDER of
+    // the members is part of the font and of groups.plist
+    const PLAIN: [&str; 4] = ["plain", "Ligatures", "zz.group", "figures.tab"];
     let mut g = GMap::new();
     let ng = 2 + r.below(5) as usize;
     for i in 0..ng {
-        let n = if i < 2 { GNAMES[i + (r.below(2) as usize)] } else { *r.pick(&GNAMES) };
-        g.insert(n.to_string(), vec![format!("m{}", i)]);
+        let plain = i >= 2 && r.chance(2, 5);
+        let n = if plain {
+            *r.pick(&PLAIN)
+        } else if i < 2 {
+            GNAMES[i + (r.below(2) as usize)]
+        } else {
+            *r.pick(&GNAMES)
+        };
+        // members are private to the group (index i), so that groups of one side never overlap
+        let mut ms: Vec<String> = match r.below(10) {
+            0..=2 => vec![format!("m{}", i)],
+            3 => vec![],
+            4 => (0..50 + r.below(25)).map(|j| format!("g{}_{:02}", i, j)).collect(),
+            _ => (0..5 + r.below(8)).map(|j| format!("g{}_{:02}", i, j)).collect(),
+        };
+        for a in (1..ms.len()).rev() {
+            let b = r.below(a as u64 + 1) as usize;
+            ms.swap(a, b);
+        }
+        // a name two or three times: mostly in plain groups (in a kerning group, or in a group
+        // that is copied to one, it makes every load fail - the same way every time)
+        if ms.len() >= 5 && r.chance(if plain { 3 } else { 1 }, if plain { 5 } else { 15 }) {
+            let d = ms[r.below(ms.len() as u64) as usize].clone();
+            for _ in 0..1 + r.below(2) {
+                let at = r.below(ms.len() as u64 + 1) as usize;
+                ms.insert(at, d.clone());
+            }
+        }
+        g.insert(n.to_string(), ms);
     }
     let names: Vec<String> = g.keys().cloned().collect();
     let mut k = KMap::new();
